@@ -324,8 +324,66 @@ def check_formulas(prog, rep, m):
             'duplicate percentile values must be merged (np.unique also keeps them ascending)')
 
 
+def check_bins_not_narrowed(prog, rep, m):
+    """K3: on the way from _bin to the binning kernel the breaks are not cast to the raster's (or a narrow) dtype"""
+    n = 0
+    for f in m.allfuncs:
+        if 'cupy' in f.qualname or 'gpu' in f.qualname or f.is_lambda:
+            continue
+        for c in f.own_nodes():
+            if not isinstance(c, ast.Call):
+                continue
+            t = prog.resolve_callable(f, m, c.func)
+            if isinstance(t, Func) and t.name == '_cpu_bin' and len(c.args) >= 2 and isinstance(c.args[1], ast.Name):
+                bname = c.args[1].id
+                defs = [v for v in f.local_assigns().get(bname, []) if isinstance(v, ast.AST)]
+                for v in defs:
+                    dt = None
+                    if isinstance(v, ast.Call):
+                        dt = kw(v, 'dtype')
+                        if dt is None and short(v) in ('asarray', 'array') and len(v.args) > 1:
+                            dt = v.args[1]
+                        if short(v) == 'astype' and v.args:
+                            dt = v.args[0]
+                    ok = dt is None or norm(dt) in WIDE
+                    n += 1
+                    rep.add('K3', f, 'reclassify/_bin', '%s = %s' % (bname, norm(v)), v.lineno, ok,
+                            'the breaks must reach the binning kernel in their own (float64) precision: casting them to the '
+                            'raster\'s dtype truncates non-integer edges on integer rasters and rounds them on float32 rasters')
+    return n
+
+
+def check_input_not_reordered(prog, rep, m):
+    """K6: classifiers must not sort / overwrite the caller's raster (order preservation is stated w.r.t. the input)"""
+    from ..effects import Effects, OBJ, MEM
+    eff = Effects(prog)
+    for name in ('binary', 'reclassify', 'quantile', 'natural_breaks', 'equal_interval'):
+        f = m.funcs.get(name)
+        if f is None:
+            raise AnalysisIncomplete('classify.%s not found' % name)
+        s = eff.summary(f)
+        from ..effects import is_arraylike
+        from .C10 import origin_event
+        evs = []
+        for e in s.events:
+            if e.root != ('param', f.params[0]) or e.level not in (OBJ, MEM):
+                continue
+            oo = origin_event(e)
+            if oo.kind.startswith('augmented assignment') and isinstance(oo.node, ast.AugAssign) and \
+                    isinstance(oo.node.target, ast.Name) and oo.root[0] == 'param' and not is_arraylike(prog, oo.func, oo.root[1]):
+                continue
+            evs.append(e)
+        o = origin_event(evs[0]) if evs else None
+        rep.add('K6', f, name, 'input raster `%s` is only read' % f.params[0] if not evs else norm(o.node)[:120],
+                o.node.lineno if o is not None else f.node.lineno, not evs,
+                'the classifier sorts or overwrites the caller\'s raster (%s): classes are then assigned to reordered '
+                'cells' % (o.kind if o is not None else ''))
+
+
 def check(prog, rep):
     m = prog.module('classify')
+    check_bins_not_narrowed(prog, rep, m)
+    check_input_not_reordered(prog, rep, m)
     check_cpu_bin(prog, rep, m)
     check_binary(prog, rep, m)
     check_labels(prog, rep, m)
@@ -336,3 +394,4 @@ def check(prog, rep):
     rep.floor('K3', 4)
     rep.floor('K4', 6)
     rep.floor('K4-binary', 3)
+    rep.floor('K6', 5)
